@@ -280,6 +280,12 @@ def replay(data):
             ys2, _ = solve(ts[:1] + ts[2:])
             if float((ys2[1:] - ys[2:]).abs().max()) > 1e-12:
                 bad.append('removing an intermediate output time changed later outputs')
+        if 'tm' in inp and ts[0] < inp['tm'] < ts[-1] and all(abs(inp['tm'] - t) > 1e-12 for t in ts):
+            ts3 = sorted(ts + [inp['tm']])
+            ys3, _ = solve(ts3)
+            keep = [i for i, t in enumerate(ts3) if t != inp['tm']]
+            if float((ys3[keep] - ys).abs().max()) > 1e-12:
+                bad.append('adding an intermediate output time changed the outputs at the other times')
     except Exception as e:
         bad.append(f'crash {type(e).__name__}: {e}')
     print('replay C12:', bad or 'grid / interpolation confirmed numerically')
